@@ -41,7 +41,7 @@ Deliv g_deliv[NPROD * MSGS + PREFILL + 2];
 int g_ndel = 0;
 volatile int g_accepted_total = 0;  // only touched by harness threads between synchronisation points
 bool g_stop_requested = false;
-bool ok_capacity = true, ok_blocking = true;
+bool ok_capacity = true, ok_blocking = true, ok_refusal = true;
 int g_prefill_acc = 0;
 int g_tids[NPROD + 1];
 int g_ntids = 0;
@@ -55,6 +55,10 @@ void producer(void *arg) {
         if (ok) g_accepted_total = g_accepted_total + 1;
         // a blocking send fails only if the source stopped first
         if (g_blocking && !ok && !g_stop_requested) ok_blocking = false;
+        // a non-blocking send is refused only when the queue is full or the source has stopped: an unbounded queue never
+        // refuses, a bounded one only after at least `capacity` values have been accepted (the counter is monotone, so
+        // reading it after the send is sound whatever the consumer did in between)
+        if (!g_blocking && !ok && !g_stop_requested) ok_refusal &= (g_cap > 0) & (g_accepted_total >= g_cap);
         ok_capacity &= (g_cap == 0) | (g_accepted_total - g_ndel <= g_cap + 1);  // +1: the consumer may have popped but not yet recorded
     }
 }
@@ -146,6 +150,7 @@ extern "C" int harness_main() {
     verif_assert(ok_times, "C16.each_delivery_in_its_own_cycle_increasing_time");
     verif_assert(ok_capacity, "C16.pending_never_exceeds_capacity");
     verif_assert(ok_blocking, "C16.blocking_send_fails_only_after_stop");
+    verif_assert(ok_refusal, "C16.try_send_refused_only_when_full_or_stopped");
     verif_assert(g_ndel <= accepted, "C16.nothing_delivered_that_was_not_accepted");
     if (!with_stopper) {
         verif_assert(g_ndel == accepted, "C16.every_accepted_value_delivered_no_lost_wakeup");
